@@ -22,14 +22,15 @@ def sh(cmd, **kw):
     return subprocess.run(cmd, shell=True, capture_output=True, text=True, **kw)
 
 
-def ingest(pid, k):
-    src = '/tmp/wt_%s/_out' % pid
+def ingest(pid, k, prefix='/tmp/wt_', offset=0):
+    src = '%s%s/_out' % (prefix, pid)
     diff, demo, notes = [os.path.join(src, f % k) for f in ('mutation%d.diff', 'demo%d.py', 'notes%d.md')]
+    kid = k + offset
     if not (os.path.exists(diff) and os.path.exists(demo)):
-        return {'id': '%s-%d' % (pid, k), 'ok': False, 'why': 'missing files'}
+        return {'id': '%s-%d' % (pid, kid), 'ok': False, 'why': 'missing files'}
     wt = tempfile.mkdtemp(prefix='pv_ingest_')
     os.rmdir(wt)
-    res = {'id': '%s-%d' % (pid, k), 'ok': False}
+    res = {'id': '%s-%d' % (pid, kid), 'ok': False}
     try:
         r = sh('git -C /repo worktree add -q --detach %s HEAD' % wt)
         if r.returncode:
@@ -52,7 +53,7 @@ def ingest(pid, k):
         res['tests_failed'] = bool(re.search(r'\d+ failed', rt.stdout))
         res['ok'] = (r0.returncode == 0 and r1.returncode != 0 and res['tests_passed'] == 48 and not res['tests_failed'])
         if res['ok']:
-            d = os.path.join(HERE, 'seeded', '%s-%d' % (pid, k))
+            d = os.path.join(HERE, 'seeded', '%s-%d' % (pid, kid))
             os.makedirs(d, exist_ok=True)
             shutil.copy(diff, os.path.join(d, 'patch.diff'))
             shutil.copy(demo, os.path.join(d, 'demo.py'))
@@ -79,6 +80,10 @@ def ingest(pid, k):
 
 if __name__ == '__main__':
     pid = sys.argv[1]
-    ks = [int(x) for x in sys.argv[2:]] or [1, 2]
+    prefix, offset = '/tmp/wt_', 0
+    rest = sys.argv[2:]
+    if rest and rest[0] == '--round2':
+        prefix, offset, rest = '/tmp/wt2_', 2, rest[1:]
+    ks = [int(x) for x in rest] or [1, 2]
     for k in ks:
-        print(json.dumps(ingest(pid, k)), flush=True)
+        print(json.dumps(ingest(pid, k, prefix, offset)), flush=True)
